@@ -486,6 +486,12 @@ func (e *Evaluator) evalDumpStmt(node *ast.DumpStmt, env *object.Env) object.Obj
 
 	for _, arg := range node.Arguments {
 		val := e.Eval(arg, env)
+
+		// a failing argument fails the render like anywhere else
+		if isError(val) {
+			return val
+		}
+
 		values = append(values, val.Dump(0))
 	}
 
